@@ -145,7 +145,6 @@ func knownAfter(gs *GroupScan) *KnownASG {
 			if c.Decrement {
 				k.Desired--
 			}
-			delete(k.Instances, c.Target)
 		case OpAttach:
 			k.Desired += int64(len(c.IDs))
 		}
@@ -405,7 +404,7 @@ func (x *scanCtx) c20Recovery() {
 		if exp, why := x.expectsAction(); exp {
 			x.check("c20-recovery")
 			x.s.stats.Probe("clean scan right after a failed action")
-			if len(gs.Calls) == 0 && g.LaunchTemplateID != "" && (strings.HasPrefix(last.what, "ec2.") || strings.HasPrefix(last.what, OpAttach)) {
+			if len(gs.Calls) == 0 && g.LaunchTemplateID != "" && (strings.HasPrefix(last.what, OpCreateFleet) || strings.HasPrefix(last.what, OpStatus) || strings.HasPrefix(last.what, OpTerminateEC2) || strings.HasPrefix(last.what, OpAttach)) {
 				x.check("c18-no-lock")
 				x.viol("C18", "c18-no-lock", "", "", fmt.Sprintf("the fleet scale-up of scan %d failed (%s) yet %d scan(s) later the group is not acted on although %s: a cool-down was taken for capacity that did not arrive", last.scan, last.what, x.rec.Index-last.scan, why))
 			}
